@@ -492,89 +492,6 @@ def _elementwise_row(prog, rep, cname, m):
         rep.undecided(f"{cname}.jacobian_row: no element derivative could be read off")
 
 
-def _append_paths(body):
-    """paths() variant for bodies that `result.append(E)` instead of returning."""
-    out = []
-
-    def go(stmts, conds, assigns):
-        for st in stmts:
-            if isinstance(st, ast.Assign) and isinstance(st.targets[0], ast.Name):
-                assigns = assigns + [(st.targets[0].id, st.value)]
-            elif isinstance(st, ast.Expr) and isinstance(st.value, ast.Call) and isinstance(st.value.func, ast.Attribute) and st.value.func.attr == "append":
-                out.append((conds, assigns, st.value.args[0], st))
-            elif isinstance(st, ast.If):
-                from ..astutil import if_chain
-
-                arms, els = if_chain(st)
-                neg = ()
-                for test, b, _n in arms:
-                    go(b, conds + neg + ((src(test), True),), list(assigns))
-                    neg = neg + ((src(test), False),)
-                if els:
-                    go(els, conds + neg, list(assigns))
-
-    go(body, (), [])
-    return out
-
-
-def _dot_row(rep, m):
-    s = src(m.node)
-    ok_same = "if self.left is self.right:" in s and "BinaryOp(Constant(2.0), v, '*')" in s.replace('"', "'")
-    rep.pin('DotProduct.jacobian_row', "R03.4", "DotProduct.jacobian_row", ok_same, "x.x (identical object): 2*x_i" if ok_same else "the x.x case is not guarded by object identity or is not 2*x_i", loc=m.loc, detail="same-vector")
-    # membership partition: truth table over `var in left_lookup` / `var in right_lookup`
-    loops = [n for n in walk_local(m.node) if isinstance(n, ast.For) and src(n.iter) == "variables"]
-    if not loops:
-        raise AnalysisError("DotProduct.jacobian_row: loop over variables not found")
-    loop = loops[-1]
-    var = src(loop.target)
-    assigns = {}
-    for st in loop.body:
-        if isinstance(st, ast.Assign) and isinstance(st.targets[0], ast.Name):
-            assigns[st.targets[0].id] = st.value
-    cases = _append_paths(loop.body)
-    aL, aR = f"{var} in left_lookup", f"{var} in right_lookup"
-
-    def norm(t):
-        return t
-
-    for inL in (True, False):
-        for inR in (True, False):
-            taken = None
-            for conds, _a, res, node in cases:
-                env = {aL: inL, aR: inR}
-                good = True
-                for text, pol in conds:
-                    f = formula(ast.parse(text, mode="eval").body)
-                    # resolve boolean locals (in_left = var in left_lookup)
-                    e2 = {}
-                    for a in f.atoms():
-                        if a in env:
-                            e2[a] = env[a]
-                        elif a in assigns and src(assigns[a]) in env:
-                            e2[a] = env[src(assigns[a])]
-                        else:
-                            raise AnalysisError(f"DotProduct.jacobian_row: test `{text}` not over the two membership tests")
-                    if f.ev(e2) != pol:
-                        good = False
-                        break
-                if good:
-                    taken = (res, node)
-                    break
-            if taken is None:
-                rep.pin('DotProduct.jacobian_row', "R03.4", "DotProduct.jacobian_row", False, f"no entry is appended when in-left={inL}, in-right={inR}: the row gets shorter than `variables`", loc=m.loc, detail=f"partition:{inL},{inR}")
-                continue
-            rs = src(taken[0])
-            usesL, usesR = "left_lookup" in rs, "right_lookup" in rs
-            want = (inL, inR)
-            ok = (usesL, usesR) == want if (inL or inR) else rs == "Constant(0.0)"
-            rep.pin('DotProduct.jacobian_row', "R03.4", "DotProduct.jacobian_row", ok,
-                   f"in-left={inL}, in-right={inR}: entry {rs[:50]}" if ok else
-                   f"a variable with in-left={inL}, in-right={inR} gets the entry `{rs[:60]}`" + (": the contribution of the other operand is dropped (x[0:2].dot(x[1:3]) gives [2,3,2] instead of [2,4,2])" if inL and inR else ""),
-                   loc=f"{m.module.rel}:{taken[1].lineno}", detail=f"partition:{'L' if inL else '-'}{'R' if inR else '-'}")
-    ok = Frag(s, "left_lookup = {left_vars[i]: right_vars[i] for i in range(len(left_vars))}", "right_lookup = {right_vars[i]: left_vars[i] for i in range(len(right_vars))}")
-    rep.pin('DotProduct.jacobian_row', "R03.4", "DotProduct.jacobian_row", ok, "partner element is the element at the same position of the other operand" if ok else "the lookup tables do not pair elements at the same position", loc=m.loc, detail="partner-position")
-
-
 def _binop_row(rep, m, prog=None):
     """BinaryOp.jacobian_row may answer from ONE operand's row only where a derivative law allows it:
         d(f +- c) = df,  d(c + f) = df,  d(c * f) = d(f * c) = c * df  (entry-wise; Constant entries may be folded),
